@@ -162,7 +162,7 @@ def run_check(pid, tier, repo, seed, opts):
                     todo.append(d)
         inputs = [o['native'] for o in sat if o.get('native') is not None][:20]
         for k, p2 in enumerate(order):
-            budget_tier = tier if (need_native or tier == 'thorough' or k == 0) else 'quick'
+            budget_tier = tier if (need_native or k == 0) else 'quick'        # dependencies' stand-ins: quick sweep unless something is open
             r = native_standin(p2, repo, budget_tier, seed, inputs=inputs)
             if r is not None:
                 r['property'] = p2
